@@ -13,9 +13,9 @@ pub const DIRS: [&str; 3] = ["", "sub", "sub/deep"];
 pub const SHAPES: [&str; 3] = ["a.txt.txtpp", "b.txtpp.txt", "c.txtpp"];
 pub const DOTTED: [&str; 3] = ["g.h.i.txtpp", "g2.h.txtpp.i", "g3.h.txtpp"];
 pub const LOOKALIKES: [&str; 6] = ["txtpp", ".txtpp", ".txtpp.x", "d.txtpp.b.c", "e.txt", "F.TXTPP"];
-pub const SPELLINGS: [&str; 23] = [
+pub const SPELLINGS: [&str; 26] = [
     "a.txtpp.txt", "sub/b.txt.txtpp", "sub/", "./", ".", "sub", "sub/deep", "./sub/..", "a.txt", "a.txt.txtpp", "./a.txt", "sub/../a.txt", "ABS:a.txt", "sub/b.txt", "sub/deep/c", "missing.txt",
-    "missing.txtpp", "e.txt", "txtpp", "subx", "sub/deeper/", "subl", "la.txt",
+    "missing.txtpp", "e.txt", "txtpp", "subx", "sub/deeper/", "subl", "la.txt", "dl", "dl/..", "dl/../b.txt",
 ];
 
 fn join(d: &str, n: &str) -> String {
@@ -105,6 +105,8 @@ impl TreeSpec {
         if self.dirlike {
             // second names through symbolic links: a directory link and (if its target exists) a file link
             t.insert("subl".into(), Node::Link("sub".into()));
+            // a link two levels down: `dl/..` is sub/, not the base directory
+            t.insert("dl".into(), Node::Link("sub/deep".into()));
             if self.masks[0] & 1 == 1 {
                 t.insert("la.txt.txtpp".into(), Node::Link("a.txt.txtpp".into()));
             }
@@ -119,6 +121,15 @@ impl TreeSpec {
         let p = inp.trim_end_matches('/');
         if p == "subl" || p.starts_with("subl/") {
             return format!("sub{}", &p[4..]);
+        }
+        if p == "dl" {
+            return "sub/deep".to_string();
+        }
+        if p == "dl/.." {
+            return "sub".to_string();
+        }
+        if let Some(rest) = p.strip_prefix("dl/../") {
+            return format!("sub/{rest}");
         }
         if self.masks[0] & 1 == 1 && (p == "la.txt" || p == "la.txt.txtpp") {
             return p.replacen("la.txt", "a.txt", 1);
@@ -150,6 +161,10 @@ pub fn expected_set(spec: &TreeSpec, inputs: &[String], recursive: bool, mode: &
     let mt = MTree::from_tree(&t);
     let mut set = BTreeSet::new();
     for inp in inputs {
+        // a path through a component that does not exist names nothing (".." is not resolved lexically)
+        if !spec.dirlike && (inp == "dl/.." || inp.starts_with("dl/../")) {
+            return Err(format!("{inp}: no such file or directory"));
+        }
         let inp = &spec.through_links(inp);
         let p = resolve("", inp).ok_or("escapes base")?;
         if mt.is_dir(&p) {
@@ -516,7 +531,7 @@ pub fn run_c11(tier: &str) -> i32 {
     let lists1 = input_lists(1);
     rep.set("trees", json!(specs.len()));
     rep.set("input_lists", json!(lists.len()));
-    rep.set("bounds", json!(format!("{} trees (3 directory levels x subsets of 3 source-name shapes, look-alikes in every directory, dotted-stem and include variants) x input lists of length <= 2 (other modes: 1) [{}] over 23 spellings x recursive on/off x build/needed/verify/clean x base absolute/relative", specs.len(), if thorough { 2 } else { 1 })));
+    rep.set("bounds", json!(format!("{} trees (3 directory levels x subsets of 3 source-name shapes, look-alikes in every directory, dotted-stem and include variants) x input lists of length <= 2 (other modes: 1) [{}] over 26 spellings x recursive on/off x build/needed/verify/clean x base absolute/relative", specs.len(), if thorough { 2 } else { 1 })));
     rep.assume("the reference set-of-sources function (harness/src/etree.rs: expected_set) is written from the property statement");
     rep.st(specs.len());
     sharded_dyn(&rep, par_threads(), |_k, _n, next, rep| {
